@@ -206,7 +206,7 @@ fn run_entry(entry: &str, inp: &[u8]) -> (Outcome<()>, Expect) {
     }
 }
 
-fn check_call(c: &Call) -> CaseResult {
+pub fn check_call(c: &Call) -> CaseResult {
     let (got, expect) = run_entry(&c.entry, &c.input);
     match (&got, expect) {
         (Outcome::Panic(p), _) => {
@@ -253,7 +253,7 @@ fn check_key_use(c: &KeyUse) -> CaseResult {
     }
 }
 
-fn valid_artefact(entry: &str) -> Option<Vec<u8>> {
+pub fn valid_artefact(entry: &str) -> Option<Vec<u8>> {
     let f = fx();
     Some(match entry {
         "sm2.verify(sig)" => f.sig.clone(),
